@@ -17,6 +17,14 @@ CHECKS = {
          "'loop-free' is the library's own notion (induced sub-graph of the path acyclic).", "deterministic simulation (state diversity only) + independent query oracle"),
  "C20": ("exploration", "Part A: an observing lock replaces the lock of both stores in every store-world run (acquire/release balance, no release while unlocked, not held on exit, after every operation incl. naturally failing ones), plus enumeration of every source-line crash point of each store operation with an injected exception. Part B: 2-3 real threads x 2-4 store operations, parked and released one at a time by a seeded scheduler (random and PCT) with pre-emption at every source line of the store modules and every lock operation; after join every graph must hold exactly the nodes (with their properties) and edges its owner added, counters beyond all ids, no deadlock. Seeded search, not systematic enumeration up to a pre-emption bound.", "4/C20",
          "Pre-emption granularity is a source line of the three store modules; injected exceptions are MemoryError at line events (not at lock calls / try: / finally: / return lines).", "deterministic simulation: baton-passing real threads under a seeded line-level scheduler + crash-point enumeration with exception injection"),
+ "C07": ("exploration", "Seeded histories of the documented topology-building calls (both flavours, valid and invalid arguments); after every call the model is read white-box from the store and checked against the published rules (pinned copy), the containment structure, name scopes and the read-only views. Sampling of histories, not proof.", "4/C07",
+         "Rule vocabularies are pinned in the checker (an edit of the JSON file shows up); cardinality rules 11/12 judged only after a successful validate(); peering links are not removed by hand.", "deterministic simulation: seeded API-call histories with invariant oracles after every step"),
+ "C08": ("exploration", "Every removal/disconnect/unpeer/prune issued in seeded histories is compared with an independent prediction (owned closure + peering artefacts) so that both 'left behind' and 'collateral damage' are visible, plus the handle clause. Sampling of histories.", "4/C08",
+         "The owned-closure rules are transcribed from the docstrings (Appendix E of DESIGN.md).", "deterministic simulation: per-step refinement against a reference transition (frame condition)"),
+ "C09": ("fault_enumeration", "At sampled states of seeded histories the whole catalogue of failing-call templates (template x position of the bad argument) is executed call by call; any call that raises must leave the model identical. The fault space per state is enumerated; the states are sampled.", "4/C09",
+         "A template that is unexpectedly accepted is only counted; no listed property promises rejection.", "deterministic simulation + per-state enumeration of a failing-call catalogue"),
+ "C02": ("exploration", "Set/get/unset over the full setter vocabulary and deep-sliver reconstruction are issued as operations inside seeded topology histories. Weakest kind of simulation use: the property is a function of its input; the simulation contributes state diversity (containment shapes, two graphs per store) only.", "4/C02",
+         "Value generators cover the names listed in the evidence; zero/false/empty values belong to C03.", "deterministic simulation (state diversity only) + field-wise round-trip oracle"),
 }
 checks = []
 for pid,(cat,text,ref,note,tech) in sorted(CHECKS.items()):
